@@ -49,7 +49,7 @@ type Conn struct {
 	writeErr   error // injected: next writes fail
 	CloseCount int
 
-	// OnWrite, if set, observes every Write (after it was queued).
+	// OnWrite, if set, observes every Write (before it becomes readable by the peer).
 	OnWrite func(b []byte)
 }
 
@@ -109,13 +109,16 @@ func (c *Conn) Write(p []byte) (int, error) {
 		h.mu.Unlock()
 		return 0, io.ErrClosedPipe
 	}
+	h.mu.Unlock()
+	// observers see the write before the peer can react to it
+	if c.OnWrite != nil {
+		c.OnWrite(p)
+	}
+	h.mu.Lock()
 	h.buf = append(h.buf, p...)
 	h.total += int64(len(p))
 	h.cond.Broadcast()
 	h.mu.Unlock()
-	if c.OnWrite != nil {
-		c.OnWrite(p)
-	}
 	return len(p), nil
 }
 
